@@ -1723,7 +1723,14 @@ fn fault_case(env: &Env, c: &Case, l: &mut Local) {
             let mut expect: Option<bool> = Some(false);
             let mut ref_oct: Option<Vec<Vec<u8>>> = None;
             if let Some((rrs_f, sig_f)) = &rr {
-                let proper = is_rrset(rrs_f, spec.rtype);
+                let has_dups = {
+                    let mut v: Vec<Vec<u8>> = rrs_f.iter().map(|r| r.rdata_canon(open_lower)).collect();
+                    v.sort();
+                    v.windows(2).any(|w| w[0] == w[1])
+                };
+                // RFC 4034 6.3 lets a validator treat duplicate RRs as an
+                // error: no octets are demanded for such a damaged set
+                let proper = is_rrset(rrs_f, spec.rtype) && !has_dups;
                 let o1 = ref_octets(sig_f, rrs_f, open_lower);
                 let same_sig = sig_f.sig == s.sig.sig;
                 let eq1 = o1.as_ref() == Some(ref0);
@@ -1767,11 +1774,17 @@ fn fault_case(env: &Env, c: &Case, l: &mut Local) {
                 Ok(Ok(o)) => o,
             };
             env.stats.distinct(fnv(format!("{c:?}|{target}|{bit}").as_bytes()));
-            if let Some(ro) = &ref_oct {
+            if let (Some(ro), Some((rrs_f, sig_f))) = (&ref_oct, &rr) {
                 if !ro.contains(&out.octets) {
+                    let d = diagnose(sig_f, rrs_f, open_lower, &|o| o == &out.octets[..]);
+                    let class = if spec.lib_unknown_listed && d == "rdata-names-not-lower-cased" {
+                        format!("C12|signed_data|octets-not-RFC4034-3.1.8.1|RFC4034-6.2-listed-type-without-library-type|{d}")
+                    } else {
+                        format!("C12|signed_data|octets-not-RFC4034-3.1.8.1|type={}|{d}", spec.mn)
+                    };
                     env.ctx.violation(
-                        &format!("C12|signed_data|fault-variant|{fclass}|octets-differ-from-RFC4034-3.1.8.1"),
-                        &format!("after flipping bit {bit} of {target} ({fclass}) signed_data = {} but the independent construction gives {}", hex(&out.octets), hex(&ro[0])),
+                        &class,
+                        &format!("after flipping bit {bit} of {target} ({fclass}) signed_data = {} but the independent construction gives {}; diagnosis: {d}", hex(&out.octets), hex(&ro[0])),
                         fault_json(target, bit),
                     );
                 }
@@ -1786,11 +1799,16 @@ fn fault_case(env: &Env, c: &Case, l: &mut Local) {
                 }
                 (false, _, false) => l.c(&format!("fault:{fclass}:ref-unreadable,lib-rejects")),
                 (true, Some(true), false) => {
+                    let class = if spec.lib_unknown_listed && fclass == "rr-rdata" {
+                        "C12|fault|rr-rdata|RFC4034-6.2-listed-type-without-library-type|name-case-bit-changes-verification".to_string()
+                    } else {
+                        format!("C12|fault|{fclass}|signed-octets-identical-but-verification-failed")
+                    };
                     env.ctx.violation(
-                        &format!("C12|fault|{fclass}|signed-octets-identical-but-verification-failed"),
+                        &class,
                         &format!(
-                            "flipping bit {bit} of {target} ({fclass}) leaves the RFC 4034 signed octets and the signature unchanged, but verify_signed_data = {:?}",
-                            out.verify
+                            "flipping bit {bit} of {target} ({fclass}, type {}) leaves the RFC 4034 signed octets and the signature unchanged, but verify_signed_data = {:?}",
+                            spec.mn, out.verify
                         ),
                         fault_json(target, bit),
                     );
@@ -2134,7 +2152,7 @@ fn main() {
                                     for entry in [1u8, 2] {
                                         let c = Case { ti, seq: seq.clone(), oi, oc: 0, ttl, tm, si, class, ki, entry };
                                         // already part of P1
-                                        if ttl == 3600 && tm == 0 && si == 0 && class == 1 {
+                                        if (ttl == 3600 && tm == 0 && si == 0 && class == 1) || (class != 1 && tm != 0) {
                                             continue;
                                         }
                                         p2.push(c);
@@ -2207,7 +2225,7 @@ fn main() {
         }),
         &[
             "keys: only the fixed key files of /repo/test-data/dnssec-keys (one key per algorithm); signing algorithms limited to what the ring backend imports (8, 10, 13, 14, 15)",
-            "P1 (all sequences x owners x owner case x algorithms x entry points) is run at TTL 3600 / first validity period / signer 'z.' / class IN; P2 crosses TTL, validity period, signer-name case and class with three representative sequences per type; sign_sorted_zone_records (entry 3) is run with the last algorithm of the menu only",
+            "P1 (all sequences x owners x owner case x algorithms x entry points) is run at TTL 3600 / first validity period / signer 'z.' / class IN; P2 crosses TTL, validity period, signer-name case (and class CH at the first validity period) with three representative sequences per type; sign_sorted_zone_records (entry 3) is run with the last algorithm of the menu only",
             "fault enumeration bases: duplicate-free sequences [v0], [v2,v0] (and [v3,v0,v2] thorough), lower-case owners; flips are single-bit; DNSKEY flags/protocol flips are recorded but not judged (not key material, not read by the primitives)",
             "NSEC: RFC 4034 6.2 (lower-case next name) and RFC 6840 5.1 (keep case) are both accepted",
             "a record TTL above the original TTL is not a covered-field alteration; such flips are expected to verify like any other TTL change",
